@@ -102,6 +102,7 @@ def devs (op : String) (how : String) (r0 : Recv) (rm : Recv) (args : List Val) 
     else none
   let d : List (String × Bool) := [
     ("call_undefined_this", how == "C" && r0 == .val .undef),
+    ("primitive_this_boxed", how == "T" && (match r0 with | .val (.str _) => true | .val16 _ => true | _ => false)),
     ("lone_surrogate", loneSurrogate r0),
     ("charAt_surrogate", ((op == "charAt" || op == "index") && optSurr posUnit) || (op == "desc" && optSurr ownUnit)),
     ("case_special", (op == "toLowerCase" && (U value).any (fun u => !isSurr u && Spec.lowerUnit u != [goLower u]))
@@ -196,8 +197,21 @@ def handleSeq (m : String) (rt : String) (as : List String) : String :=
     logOut ml ++ ";" ++ resOut mr ++ " " ++ logOut sl ++ ";" ++ resOut sr ++ " " ++ (if dev.isEmpty then "-" else ",".intercalate dev)
   | _, _ => "bad-op"
 
+/-- `plus w:<a> w:<b>`: a + b of two []uint16 strings;  `eqpair w:<a> w:<b>`: (a + b) === String.fromCharCode(a…, b…).
+    The evaluator converts each operand with Value.string() (evaluate.go), so a lone surrogate becomes U+FFFD. -/
+def handlePair (op : String) (ta tb : String) : String :=
+  match recv? ta, recv? tb with
+  | some (.val16 a), some (.val16 b) =>
+    let dev := if loneSurrogate (.val16 a) || loneSurrogate (.val16 b) then ["lone_surrogate"] else []
+    let ma := bytesOfUnits a ++ bytesOfUnits b
+    if op == "plus" then reply (.str (U ma)) (.str (a ++ b)) dev
+    else reply (.bool (ma == bytesOfUnits (a ++ b))) (.bool true) dev
+  | _, _ => "bad-op"
+
 def handle (ws : List String) : String :=
   match ws with
+  | ["plus", a, b] => handlePair "plus" a b
+  | ["eqpair", a, b] => handlePair "eqpair" a b
   | "seq" :: m :: rt :: as => handleSeq m rt as
   | "fromCharCode" :: "-" :: as =>
     match as.mapM val? with
@@ -215,11 +229,14 @@ def handle (ws : List String) : String :=
       let nullish := r0 = .val .undef ∨ r0 = .val .null
       -- the `this` value the built-in receives on each side
       let rm? : Option Recv :=
-        if how = "M" then memberThis env r0 else if how = "C" then some (callThis r0) else some r0
+        if how = "M" then memberThis env r0
+        else if how = "T" then memberThisOverridden env sZZZ r0     -- member call, String.prototype.toString replaced
+        else if how = "C" then some (callThis r0) else some r0
       match rm? with
       | none => reply .throwType .throwType []          -- member access on undefined / null (§11.2.1)
       | some rm =>
-        let s := if how = "M" ∧ nullish then Res.throwType else sf env r0 args
+        let s := if (how = "M" ∨ how = "T") ∧ nullish then Res.throwType
+                 else if how = "T" then sf env (Spec.thisOverridden sZZZ r0) args else sf env r0 args
         reply (mf env rm args) s (devs op how r0 rm args)
     | _, _, _ => "bad-op"
   | _ => "bad-op"
